@@ -3,7 +3,8 @@
 Bounded liveness in SIMULATED STEPS: "each arrival is absorbed within K interpreter steps whatever
 the history".  A history is built through the (faulty, chunked) feed; at history lengths N0, 2N0,
 4N0, 8N0 (thorough: 16N0) eight further single candles are appended and each append is measured with
-the simulator's own clock: sys.monitoring LINE events executed inside the files the property names
+the simulator's own clock: sys.monitoring control-flow events (function entries, jumps, branches) executed
+inside the files the property names
 (hexital/indicators/*, hexital/analysis/*, utils/candles.py, utils/indexing.py, core/indicator.py)
 and the number of _calculate_reading invocations.  No wall time is involved, so the measure is
 deterministic and load independent.
@@ -23,7 +24,7 @@ ID = "C07"
 LEVEL = "exploration"
 SUBBATCHES = ("calm", "faulty")
 CHUNK = 2
-BUDGET = {"quick": 40, "thorough": 600}
+BUDGET = {"quick": 30, "thorough": 600}
 REFERENCE_MODELS = ["work at the first rung of the ladder (the same subject, shorter history)"]
 MEASURED = ("indicators/", "analysis/", "utils/candles.py", "utils/indexing.py", "core/indicator.py")
 N0 = 150
@@ -33,7 +34,8 @@ RULE = ("one ladder per run: a history of N0*(1,2,4,8[,16]) candles built throug
         "duplicates, bursts), 8 measured single appends per rung; non-trivial = the subject had a non-None newest "
         "reading at every rung (past warm-up) and all rungs were measured; distinct = distinct digests of (trace, "
         "measured counts)")
-ASSUMPTIONS = ["work = interpreter LINE events in the indicator / analysis / utils / core.indicator files; "
+ASSUMPTIONS = ["work = interpreter control-flow events (PY_START + JUMP + BRANCH) in the indicator / analysis / utils / "
+               "core.indicator files (LINE events are not bit-stable between executions in one process); "
                "candle_manager re-collapse is O(n) per append by construction and is excluded, as the property's "
                "observe_at names indicator work"]
 
@@ -204,9 +206,9 @@ def execute(trace, ctx=None):
         base_n, base_lines, base_calls, _ = measured[0]
         run.observe([(n, l, c) for n, l, c, _p in measured])
         for n, lines, calls, per in measured[1:]:
-            if lines > 1.25 * base_lines + 30:
+            if lines > 1.25 * base_lines + 20:
                 raise Violation("work-grows-with-history", label, "lines",
-                                {"ladder": [(a, b, c) for a, b, c, _p in measured], "limit": 1.25 * base_lines + 30})
+                                {"ladder": [(a, b, c) for a, b, c, _p in measured], "limit": 1.25 * base_lines + 20})
             if calls > base_calls + 2:
                 raise Violation("work-grows-with-history", label, "calculate_reading-calls",
                                 {"ladder": [(a, b, c) for a, b, c, _p in measured]})
